@@ -4193,3 +4193,108 @@ func (ff *FuncFacts) assumeEither(st *State, a, b ast.Expr, pol bool) *State {
 	}
 	return st.with(mkImp(na, fb), mkImp(nb, fa))
 }
+
+// PathSearchPS is PathSearch with the state threaded along each path from
+// `from` (no joins): an edge is infeasible when the path's own facts
+// contradict it, so `ok = true` on this path decides a later `if !ok`.
+// Exponential in the number of branches after `from`; past the budget the
+// join-based PathSearch (which can only find more paths) answers.
+func (ff *FuncFacts) PathSearchPS(from ast.Node, init int, step func(n ast.Node, st *State, flag int) (int, bool), blocked func(f *Fact) bool, bad func(flag int) bool) (token.Pos, bool) {
+	fb, fi := ff.blockOf(from)
+	if fb == nil {
+		return token.NoPos, false
+	}
+	start, ok := ff.at[from]
+	if !ok || start == nil {
+		return ff.PathSearch(from, init, step, blocked, bad)
+	}
+	// state after the from node's own block prefix is not known exactly: begin with
+	// the recorded state before `from` and run the rest of its block
+	budget := 40000
+	count := map[*cfg.Block]int{}
+	var walk func(b *cfg.Block, startIdx int, flag int, st *State, first bool) (token.Pos, bool, bool)
+	walk = func(b *cfg.Block, startIdx int, flag int, st *State, first bool) (token.Pos, bool, bool) {
+		budget--
+		if budget < 0 {
+			return token.NoPos, false, false
+		}
+		if !first {
+			if count[b] >= 2 {
+				return token.NoPos, false, true
+			}
+			count[b]++
+			defer func() { count[b]-- }()
+		}
+		for i := startIdx; i < len(b.Nodes); i++ {
+			n := b.Nodes[i]
+			nf, stop := step(n, st, flag)
+			if stop {
+				return token.NoPos, false, true
+			}
+			flag = nf
+			st = ff.node(n, st, false)
+		}
+		if len(b.Succs) == 0 {
+			if !bad(flag) {
+				return token.NoPos, false, true
+			}
+			pos := ff.fs.Body().Rbrace
+			if len(b.Nodes) > 0 && b.Nodes[len(b.Nodes)-1].Pos().IsValid() {
+				pos = b.Nodes[len(b.Nodes)-1].Pos()
+			}
+			return pos, true, true
+		}
+		for i, s := range b.Succs {
+			if !s.Live {
+				continue
+			}
+			// the nodes of b are already applied to st: only the edge's own facts are added
+			outs := []*State{st}
+			if len(b.Succs) == 2 && len(b.Nodes) > 0 {
+				if lastExpr, isE := b.Nodes[len(b.Nodes)-1].(ast.Expr); isE {
+					if ff.condOf(b) != nil {
+						outs = ff.edgeVariants(st, lastExpr, i == 0)
+					} else if cc, isCC := ff.eng.p.Parent(ff.fs.File, lastExpr).(*ast.CaseClause); isCC {
+						if sw, isSw := ff.eng.p.Parent(ff.fs.File, ff.eng.p.Parent(ff.fs.File, cc)).(*ast.SwitchStmt); isSw && sw.Tag != nil {
+							if a, c := ff.term(sw.Tag), ff.term(lastExpr); a != nil && c != nil {
+								outs = []*State{st.add(mkFact(i == 0, "eq", a, c))}
+							}
+						}
+					}
+				}
+			}
+			for _, o := range outs {
+				if o == nil || contradictory(o) {
+					continue
+				}
+				skip := false
+				if blocked != nil {
+					for _, f := range o.m {
+						if blocked(f) {
+							skip = true
+							break
+						}
+					}
+				}
+				if skip {
+					continue
+				}
+				pos, found, complete := walk(s, 0, flag, o, false)
+				if !complete {
+					return token.NoPos, false, false
+				}
+				if found {
+					return pos, true, true
+				}
+			}
+		}
+		return token.NoPos, false, true
+	}
+	// the from node itself is not stepped (as in PathSearch), but its effect is applied
+	st := ff.node(fb.Nodes[fi], start, false)
+	pos, found, complete := walk(fb, fi+1, init, st, true)
+	if !complete {
+		return ff.PathSearch(from, init, step, blocked, bad)
+	}
+	return pos, found
+}
